@@ -122,12 +122,12 @@ pub fn props() -> Vec<PropCfg> {
         },
         PropCfg {
             id: "C07",
-            profiles: &[("C07", 3), ("C05", 1)],
+            profiles: &[("C07", 30), ("C05", 9), ("C07-fault", 1)],
             quick_runs: 80000,
             thorough_runs: 1000000,
             level: "exploration",
             rule: "profile C07 (3/4 of the cases): direct Roll::roll calls of the real FixedWindowRoller / DeleteRoller, 1-12 successive rolls over generated trees (pre-existing archives inside, beyond and below the window, gaps, look-alike bystanders; patterns with the index in the file name, in a directory, repeated, under $ENV, on a second mount), whole tree compared with the window model after every roll; profile C05 (1/4): the same roller invariants observed inside full rolling-appender histories; non-trivial = at least one roll completed; distinct = distinct event-log fingerprints",
-            assumptions: &["no fault injected (faults are C08's)", "gzip patterns only in the thorough tier (gzip build); zstd not exercised"],
+            assumptions: &["profiles C07 and C05 inject no fault; profile C07-fault (1/40 of the histories) re-executes its history once per rotation-step site with an error injected there, retries the failed roll and judges the rolls that follow (the retained window after a failed roll is whatever it left on disk)", "gzip patterns only in the thorough tier (gzip build); zstd not exercised"],
             real: &["FixedWindowRoller::roll / rotate / move_file (incl. real EXDEV copy+delete on a second mount)", "DeleteRoller", "expand_env_vars", "kernel tmpfs + second filesystem"],
             stub: &["none for profile C07 (the roller is called directly); profile C05 as in world R"],
         },
@@ -159,12 +159,12 @@ pub fn props() -> Vec<PropCfg> {
         },
         PropCfg {
             id: "C17",
-            profiles: &[("C17", 1)],
+            profiles: &[("C17", 39), ("C17-fault", 1)],
             quick_runs: 40000,
             thorough_runs: 600000,
             level: "exploration",
             rule: "world R restricted to the real OnStartUpTrigger: pre-existing sizes around min_size (incl. 0 and min_size 0), 1-4 threads racing for the first append, restarts re-arming the trigger; non-trivial = a rotation happened or the first appends overlapped; distinct = distinct event-log fingerprints",
-            assumptions: &["no fault injected"],
+            assumptions: &["profile C17 (39/40 of the histories) injects no fault; profile C17-fault (1/40) re-executes its history once per rotation-step site with an error or a crash image there and keeps judging at-most-once after a failed start-up rotation"],
             real: R_REAL,
             stub: R_STUB,
         },
